@@ -1,0 +1,109 @@
+//go:build verif
+
+// Verification contracts for package target (comment-only; compiled only with -tags verif).
+// Read by /verif/cmd/gvc; see /verif/DESIGN.md for the contract language.
+
+package target
+
+// ---------------------------------------------------------------------------
+// ghost trace events of the NETCONF driver
+
+//@ event EditConfig(string)
+//@ event Commit()
+//@ event Discard()
+//@ event DriverClose()
+
+// ---------------------------------------------------------------------------
+// assumed contracts (interfaces and libraries)
+
+//@ iface (datastore/target/netconf.Driver).EditConfig
+//@   params target config
+//@   emits EditConfig(target)
+//@   ensures resp_on_success: r1 == nil ==> r0 != nil && r0.Doc != nil
+
+//@ iface (datastore/target/netconf.Driver).Commit
+//@   emits Commit()
+
+//@ iface (datastore/target/netconf.Driver).Discard
+//@   emits Discard()
+
+//@ iface (datastore/target/netconf.Driver).Close
+//@   emits DriverClose()
+
+//@ iface (datastore/target/netconf.Driver).IsAlive
+//@   noeffect
+
+// rendering the change never talks to the device
+//@ iface TargetSource.ToXML
+//@   noeffect
+
+//@ extern (*github.com/beevik/etree.Document).WriteToString
+//@   noeffect
+//@ extern (*github.com/beevik/etree.Document).FindElements
+//@   noeffect
+//@ extern (*github.com/beevik/etree.Element).FindElements
+//@   noeffect
+//@ extern github.com/beevik/etree.NewDocumentWithRoot
+//@   noeffect
+//@   ensures result != nil
+
+// ---------------------------------------------------------------------------
+// C18 — NETCONF edits are committed once or discarded
+
+//@ func filterRPCErrors
+//@   props C18
+//@   requires xml != nil
+//@   modifies nothing
+//@   loop 0 invariant result == nil || fresh(result)
+//@   loop 0 invariant unchanged(allelems(string))
+
+//@ func (*ncTarget).setCandidate
+//@   props C18 C09
+//@   requires t != nil && t.sbiConfig != nil && t.sbiConfig.NetconfOptions != nil
+//@   requires connected: t.driver != nil
+//@   requires source != nil
+//@   let n0 = ntrace()
+//@   internal empty: len(xdoc) == 0 ==> ntrace() == n0
+//@   internal silent_success_means_empty: r1 == nil && ntrace() == n0 ==> len(xdoc) == 0
+//@   internal success_sends: r1 == nil && len(xdoc) > 0 ==>
+//@            ntrace() == n0 + 2 && emitted(n0) == EditConfig("candidate") && emitted(n0+1) == Commit
+//@   ensures success: r1 == nil ==> ntrace() == n0 ||
+//@            (ntrace() == n0 + 2 && emitted(n0) == EditConfig("candidate") && emitted(n0+1) == Commit)
+//@   ensures first_is_edit: ntrace() > n0 ==> emitted(n0) == EditConfig("candidate")
+//@   ensures at_most_one_edit: forall(i, n0+1, ntrace(), !isev(emitted(i), EditConfig))
+//@   ensures commit_only_second: forall(i, n0, ntrace(), emitted(i) == Commit ==> i == n0+1)
+//@   ensures discard_or_close_on_error: r1 != nil && ntrace() > n0 ==>
+//@            emitted(ntrace()-1) == Discard || emitted(ntrace()-1) == DriverClose
+//@   ensures close_is_last: forall(i, n0, ntrace(), emitted(i) == DriverClose ==> i == ntrace()-1)
+
+//@ func (*ncTarget).setRunning
+//@   props C18 C09
+//@   requires t != nil && t.sbiConfig != nil && t.sbiConfig.NetconfOptions != nil
+//@   requires connected: t.driver != nil
+//@   requires source != nil
+//@   let n0 = ntrace()
+//@   internal empty: len(xdoc) == 0 ==> ntrace() == n0
+//@   internal silent_success_means_empty: r1 == nil && ntrace() == n0 ==> len(xdoc) == 0
+//@   internal success_sends: r1 == nil && len(xdoc) > 0 ==> ntrace() == n0 + 1 && emitted(n0) == EditConfig("running")
+//@   ensures success: r1 == nil ==> ntrace() == n0 || ntrace() == n0 + 1
+//@   ensures first_is_edit: ntrace() > n0 ==> emitted(n0) == EditConfig("running")
+//@   ensures at_most_one_edit: forall(i, n0+1, ntrace(), !isev(emitted(i), EditConfig))
+//@   ensures never_commit_or_discard: forall(i, n0, ntrace(), emitted(i) != Commit && emitted(i) != Discard)
+
+// Set dispatches on the commit datastore; nothing is sent when the target is not connected
+// or the commit datastore is unknown.
+//@ func (*ncTarget).Set
+//@   props C18
+//@   requires t == nil || (t.sbiConfig != nil && t.sbiConfig.NetconfOptions != nil)
+//@   requires source != nil
+//@   let n0 = ntrace()
+//@   let ds = t.sbiConfig.NetconfOptions.CommitDatastore
+//@   ensures unknown_datastore_sends_nothing: ds != "running" && ds != "candidate" ==> r1 != nil && ntrace() == n0
+//@   ensures edits_target_configured_datastore: ntrace() > n0 ==> emitted(n0) == EditConfig(ds)
+//@   ensures at_most_one_edit: forall(i, n0+1, ntrace(), !isev(emitted(i), EditConfig))
+//@   ensures commit_only_for_candidate: forall(i, n0, ntrace(), emitted(i) == Commit ==> ds == "candidate" && i == n0+1)
+//@   ensures discard_or_close_on_error: ds == "candidate" && r1 != nil && ntrace() > n0 ==>
+//@            emitted(ntrace()-1) == Discard || emitted(ntrace()-1) == DriverClose
+//@   ensures success_candidate: ds == "candidate" && r1 == nil && ntrace() > n0 ==>
+//@            ntrace() == n0 + 2 && emitted(n0+1) == Commit
+//@   ensures success_running: ds == "running" && r1 == nil && ntrace() > n0 ==> ntrace() == n0 + 1
